@@ -419,6 +419,13 @@ def h_rank_selection_point(bias: float, r: float, n: int) -> bool:
     return reach(isinstance(idx, int) and 0 <= idx < n)
 
 
+def h_replay_rank(bias_raw: int, r_raw: int, n: int) -> bool:
+    """Concrete replay of an SMT model (operands as raw Float64 bit patterns) on the real get_index."""
+    from harness import _E2_lemmas as L
+
+    return L.replay_rank(bias_raw, r_raw, n)
+
+
 def h_rank_selection_default(s: int, k: int) -> bool:
     """
     pre: 0 <= s <= 8 and 0 <= k <= 18
@@ -517,12 +524,8 @@ def obligations(tier: str):
             Chx("crowding_n4", h_crowding, timeout=T, fix={"n": 4}, split={"a0": [0, 1, 2, 3], "m": [0, 1, 2]}),
             Chx("tournament", h_tournament, timeout=T, fix={"maximize": False}, split={"n": [1, 2, 3, 4], "size": [1, 2, 3, 4]}),
         ]
-    # === E2 placeholder ====================================================================================
-    # The IEEE-exact obligations for RankSelection.get_index (bias, draw : Float64, n in [1,64]: index in
-    # [0,n), no ZeroDivisionError / math domain error, monotone in the draw; DESIGN.md C14 (ii)) are to be
-    # appended HERE as `Smt("rank_selection_ieee_...", build=..., decode=..., replay_fn=...)` objects whose
-    # SMT-LIB text is generated from the source of pynguin.ga.operators.selection.RankSelection.get_index
-    # (engines/py2smt.py).  h_rank_selection_grid(b, s, k) above is the CrossHair/rational-grid counterpart;
-    # h_rank_selection_point(bias, r, n) is a ready-made concrete replay_fn for decoded SMT models.
-    # ========================================================================================================
+    # E2 (py2smt): IEEE-exact obligations for RankSelection.get_index, encoded from its source on every run.
+    from harness import _E2_lemmas as L
+
+    obs += L.rank_obligations(tier, h_replay_rank)
     return obs
